@@ -88,6 +88,8 @@ type Exec struct {
 	initLast  *State
 	initWritten   map[*ssa.Global]bool
 	initAllocated []*Term
+	replayInfo    *ReplayInfo
+	curClause     *Clause
 }
 
 type abortPath struct{ why string }
@@ -312,7 +314,7 @@ func (x *Exec) oblige(st *State, name, kind string, goal *Term, text, pos string
 			txt = fmt.Sprintf("%s  [conjunct %d of %d]", text, i+1, len(goals))
 		}
 		ob := &Obligation{Name: name, Func: x.qname, Kind: kind, Text: txt, Pos: pos, Tags: tags, Mode: x.e.ar.Mode,
-			Goal: g, Assume: st.pc[:len(st.pc):len(st.pc)], Path: strings.Join(st.trace, ">")}
+			Goal: g, Assume: st.pc[:len(st.pc):len(st.pc)], Path: strings.Join(st.trace, ">"), Replay: x.replayInfo, Clause: x.curClause}
 		if g.IsTrue() {
 			ob.Status = "unsat"
 			ob.Solver = "syntactic"
